@@ -46,6 +46,7 @@ let rec parse_expr toks =
     | "*" -> bin (fun a b -> EMul (a, b)) | "&" -> bin (fun a b -> EAnd (a, b))
     | "|" -> bin (fun a b -> EOr (a, b)) | "^" -> bin (fun a b -> EXor (a, b))
     | "n" -> un (fun a -> ENeg a)
+    | "m" -> un (fun a -> ELoad a)
     | "<" -> sh (fun a k -> EShl (a, k)) | ">" -> sh (fun a k -> EShr (a, k)) | "]" -> sh (fun a k -> ESar (a, k))
     | _ ->
       (match t.[0] with
@@ -69,7 +70,7 @@ let parse_item s =
                  (if l2 = "-" then None else Some (nat_of_int (int_of_string l2))), z_of_hex d))
   | "E" :: nm :: f :: _ -> Some (IExpr (parse_nm nm, nat_of_int (int_of_string f)))
   | "F" :: ty :: e -> Some (IFunc (parse_ty ty, fst (parse_expr e)))
-  | "G" :: _ -> Some (IFunc (TI64, EConst Z0))
+  | "G" :: _ -> Some IGFunc
   | "Oi" :: _ -> Some (IOther OImport)
   | "Op" :: _ -> Some (IOther OProto)
   | "Of" :: d :: _ | "Ox" :: d :: _ -> Some (IOther (OAlias (nat_of_int (int_of_string d))))
@@ -91,6 +92,10 @@ let run_case line =
   let base n = try List.assoc (int_of_nat n) addrs with Not_found -> Z0 in
   let lay = layout items in
   let b = Buffer.create 1024 in
+  match load_check items with
+  | Some EBinaryIO -> print_endline "E:binary_io"
+  | Some EWrongLref -> print_endline "E:wrong_lref"
+  | None ->
   Buffer.add_string b "ok P";
   List.iteri (fun i p -> match p with
       | Some pl -> Buffer.add_string b (Printf.sprintf " %d@%d+%d" i (int_of_nat pl.p_head) (int_of_nat pl.p_off))
